@@ -300,6 +300,18 @@ func runCmd(args []string) int {
 			rel, outcome := rp.replay(r.h, c)
 			c.WitnessRel = rel
 			c.Replay = classify(c, outcome)
+			if c.Replay != "REPRODUCED" {
+				// the first witness did not reproduce: try the alternates before calling the obligation spurious
+				for _, a := range c.Alts {
+					arel, aout := rp.replay(r.h, a)
+					if classify(a, aout) == "REPRODUCED" {
+						c.Draws, c.Model, c.Path = a.Draws, a.Model, a.Path
+						rel, outcome = arel, aout
+						c.WitnessRel, c.Replay = arel, "REPRODUCED"
+						break
+					}
+				}
+			}
 			switch {
 			case c.Replay == "REPRODUCED" && c.Known == "":
 				violations++
